@@ -55,7 +55,7 @@ SPELLED = {'2000-01-01': D(2000, 1, 1), '20000101': D(2000, 1, 1), 20000101: D(2
            '2024-06-15 09:00': TODAY + datetime.timedelta(hours=9), '1 Jan 2000': D(2000, 1, 1)}
 EXPIRIES = EXPIRIES + list(SPELLED)
 # the missing date (review v2 W4): what a None expiry becomes after a trip through pandas.  It is no "expiry date in the past": the row is
-# recomputed, as with None (fix 92e6220; before, dt(NaT) >= today being False, the old value was kept for ever).
+# recomputed, as with None (fix 9bff53a; before, dt(NaT) >= today being False, the old value was kept for ever).
 # Wire (expiry slot only): NAT = pd.NaT, NAT64 = np.datetime64('NaT'), the string 'NaT' is S:4e6154; the driver reads all three as the
 # model's cell for the missing date, Cell.str "NaT".
 NATS = [pd.NaT, np.datetime64('NaT'), 'NaT']
